@@ -8,6 +8,7 @@ import (
 	"google.golang.org/protobuf/proto"
 	"google.golang.org/protobuf/types/known/fieldmaskpb"
 
+	"github.com/smart-core-os/sc-api/go/traits"
 	"github.com/smart-core-os/sc-golang/internal/testproto"
 	"github.com/smart-core-os/sc-golang/internal/vt"
 	"github.com/smart-core-os/sc-golang/internal/vth"
@@ -185,6 +186,48 @@ func VT_C05_Nested() {
 	}
 	if inScope(update, writable, "default_int64") {
 		vt.Assert(dst.DefaultInt64 == written.DefaultInt64, "witness-in-scope-equals-written")
+	}
+	vt.Reach("merged")
+}
+
+// ---- sibling fields whose names are textual prefixes of each other: preset / preset_index (traits.FanSpeed) ----
+var siblingUpdateMasks = []*M{nil, vth.Mask("preset"), vth.Mask("preset_index"), vth.Mask("preset", "preset_index"), vth.Mask("percentage")}
+var siblingWritable = []*M{nil, vth.Mask("preset"), vth.Mask("preset_index"), vth.Mask("percentage", "preset")}
+
+func VT_C05_SiblingPrefixFields() {
+	dst := &traits.FanSpeed{Preset: vt.StrOrd("dst.preset"), PresetIndex: vt.Int32("dst.index"), Percentage: vt.IntF("dst.pct")}
+	src := &traits.FanSpeed{Preset: vt.StrOrd("src.preset"), PresetIndex: vt.Int32("src.index"), Percentage: vt.IntF("src.pct")}
+	update, _ := vth.PickMask("update", siblingUpdateMasks)
+	writable, _ := vth.PickMask("writable", siblingWritable)
+	before := proto.Clone(dst).(*traits.FanSpeed)
+	written := proto.Clone(src).(*traits.FanSpeed)
+	u := vtUpdater(update, writable, nil)
+	err := u.Validate(src)
+	if update != nil && !within(update, writable) {
+		vt.Assert(status.Code(err) == codes.InvalidArgument, "read-only-sibling-rejected-with-InvalidArgument")
+	} else {
+		vt.Assert(err == nil, "mask-inside-writable-fields-accepted")
+	}
+	if err != nil {
+		vt.Assert(proto.Equal(dst, before), "rejected-write-changes-nothing")
+		vt.Reach("rejected")
+		return
+	}
+	u.Merge(dst, src)
+	if inScope(update, writable, "preset") {
+		vt.Assert(dst.Preset == written.Preset, "sibling-in-scope-equals-written")
+	} else {
+		vt.Assert(dst.Preset == before.Preset, "sibling-out-of-scope-unchanged")
+	}
+	if inScope(update, writable, "preset_index") {
+		vt.Assert(dst.PresetIndex == written.PresetIndex, "longer-sibling-in-scope-equals-written")
+	} else {
+		vt.Assert(dst.PresetIndex == before.PresetIndex, "longer-sibling-out-of-scope-unchanged")
+	}
+	if inScope(update, writable, "percentage") {
+		vt.Assert(dst.Percentage == written.Percentage, "witness-in-scope-equals-written")
+	} else {
+		vt.Assert(dst.Percentage == before.Percentage, "witness-out-of-scope-unchanged")
 	}
 	vt.Reach("merged")
 }
